@@ -156,7 +156,8 @@ impl Socket for ReqSocket {
 impl MultiPeerBackend for ReqSocketBackend {
     async fn peer_connected(self: Arc<Self>, peer_id: &PeerIdentity, io: FramedIo) {
         let (recv_queue, send_queue) = io.into_parts();
-        self.peers
+        let replaced = self
+            .peers
             .upsert_async(
                 peer_id.clone(),
                 Peer {
@@ -165,12 +166,26 @@ impl MultiPeerBackend for ReqSocketBackend {
                     recv_queue,
                 },
             )
-            .await;
-        self.round_robin.push(peer_id.clone());
+            .await
+            .is_some();
+        if !replaced {
+            // A peer coming back under an identity that is still registered keeps
+            // its single slot in the rotation.
+            self.round_robin.push(peer_id.clone());
+        }
     }
 
     fn peer_disconnected(&self, peer_id: &PeerIdentity) {
         self.peers.remove_sync(peer_id);
+        // Take the peer's slot out of the rotation as well: a stale id left behind
+        // would give the peer two slots if it reconnects under the same identity.
+        for _ in 0..self.round_robin.len() {
+            match self.round_robin.pop() {
+                Some(id) if &id == peer_id => {}
+                Some(id) => self.round_robin.push(id),
+                None => break,
+            }
+        }
     }
 }
 
